@@ -4,7 +4,7 @@ import shutil
 import subprocess
 
 import common
-from impl import engine, histgen
+from impl import engine, histgen, nodekinds
 
 ASSUMPTIONS = [
     "task bodies are deterministic functions of their declared inputs and module text and write only their declared products",
@@ -285,10 +285,21 @@ def f3_witness(ctx):
 def histories(ctx):
     rng = ctx.rng
     hs = []
-    for i in range(ctx.scale(70, 800)):
+    for i in range(ctx.scale(58, 680)):
         spec = engine.gen_spec(rng, nt=(2, 7), after_p=0.2, after_needs_prods=True, user_markers=True, marks=(("skip", 0.05),),
-                               link_p=0.3, dirprod_p=0.3, hashed_p=0.25, bag_p=0.3, subdir_p=0.3, pygroup_p=0.25)
+                               link_p=0.3, dirprod_p=0.3, hashed_p=0.25, bag_p=0.3, subdir_p=0.3, pygroup_p=0.25, kwsplit_p=0.4)
         hs.append(histgen.random_history(rng, spec, rng.randint(4, 10), EDITS, CFGS, final_build={}))
+    # the same kind of project driven through the PROGRAMMATIC interface: every build of the history is
+    # pytask.build(tasks=[all task functions of the imported task modules]); declaration styles per task: parameter defaults only,
+    # @task(kwargs=…) only, or both on one function (kw_split)
+    for i in range(ctx.scale(14, 140)):
+        spec = engine.gen_spec(rng, nt=(2, 6), after_p=0.15, after_needs_prods=True, user_markers=True, dens=0.9,
+                               styles=("default", "kwargs", "kwargs", "annotated", "return"),
+                               link_p=0.2, hashed_p=0.2, bag_p=0.2, pygroup_p=0.15, kwsplit_p=0.8)
+        h = histgen.random_history(rng, spec, rng.randint(4, 9), EDITS, CFGS, final_build={})
+        h["as_tasks"] = True
+        h["tag"] = "prog"
+        hs.append(h)
     return hs
 
 
@@ -305,10 +316,13 @@ def run(ctx):
     f11b_witness(ctx)
     f3_witness(ctx)
     memhash_stream(ctx)
+    nodekinds.stream(ctx, "C02")
     engine.run_campaign(ctx, histories(ctx), oracle, nontrivial=nontrivial, sel_eval=engine.sel_eval, rotate_seeds=True)
 
 
 def replay(ctx, obj):
+    if obj.get("input", {}).get("nodekinds"):
+        return nodekinds.replay("C02", obj["input"]["nodekinds"])
     if obj.get("input", {}).get("memhash"):
         proj = obj["input"]["memhash"]
         obs = _memhash_run(proj)
